@@ -172,6 +172,12 @@ class C13(Prop):
                     yield Case('select', ('field', 'k', ('isinstance', ty), compl, None, tm))
             yield Case('biselect', ('k', ('user', 4), None, tm))
             yield Case('biselect', ('k', ('user', 5), None, tm))
+        # list cells against list / tuple references: selecteq / selectne are plain == / != (a list equals a list, not a tuple)
+        tl = (('k', 'a', 'v'), ((1, 2), 'x', 1), ([1, 2], 'y', 2), ([1], 'x', 3), ('x', 'y', 1), ([1, 2], 'xy', None), ((1,), '', 2))
+        for ref in ([1, 2], (1, 2), [1], (1,), []):
+            for tag in ('eq', 'ne'):
+                for compl in (False, True):
+                    yield Case('select', ('field', 'k', (tag, ref), compl, None, tl))
         # all slice argument triples
         vals = [None, 0, 1, 2, 5]
         t = (('k',),) + tuple((i,) for i in range(7))
@@ -281,6 +287,16 @@ class C13(Prop):
         if case.op != 'select' or impl_obs[0] != 'li':
             return None
         form, field, pred, compl, missing, t = case.arg
+        if form == 'field' and pred[0] in ('eq', 'ne') and (field in t[0] or (isinstance(field, int) and 0 <= field < len(t[0]))):
+            # the documented predicate itself: cell == reference (a missing cell reads as None)
+            i = field if isinstance(field, int) else list(t[0]).index(field)
+            try:
+                sel = [tuple(r) for r in t[1:] if (((r[i] if i < len(r) else None) == pred[1]) == (pred[0] == 'eq')) != compl]
+                want = ('li', tuple(('tu', tuple(codec.canon(x) for x in r)) for r in [tuple(t[0])] + sel))
+                if want != impl_obs:
+                    return False
+            except Exception:
+                pass
         try:
             other = obs_rows(call_select(etl, [tuple(r) for r in t], form, field, pred, not compl, missing))
         except Exception:
